@@ -31,8 +31,9 @@ def hexToBA (s : String) : Option ByteArray :=
 
 def hx (s : String) : Option (List UInt8) := (hexToBA s).map (·.toList)
 
+/-- A `uint64_t` argument that may be LZMA_VLI_UNKNOWN: "u" or the number 2^64−1 itself. -/
 def vliArg (s : String) : Option (Option Nat) :=
-  if s == "u" then some none else s.toNat?.map some
+  if s == "u" then some none else s.toNat?.map fun n => if n = VLI_UNKNOWN then none else some n
 
 def showVli : Option Nat → String
   | none => "u"
@@ -220,6 +221,9 @@ def step (_ : Unit) (ws : List String) : Unit × String :=
     | none => bad
   | ["idxarith", cnt, ls, bs] => match cnt.toNat?, ls.toNat?, bs.toNat? with
     | some c, some l, some b => ((), s!"{indexSizeUnpadded c l} {indexSize c l} {indexStreamSize b c l}")
+    | _, _, _ => bad
+  | ["buenc", chk, avail, h] => match chk.toNat?, avail.toNat?, hx h with
+    | some c, some a, some d => ((), retHex (blockUncompEncode c d a))
     | _, _, _ => bad
   | ["bound", n] => match n.toNat? with
     | some n => ((), s!"{lzma2Bound n} {blockBufferBound64 n} {blockBufferBound n} {streamBufferBound n}")
